@@ -278,13 +278,15 @@ func checkC12(P *Program, r *Result, tier string) {
 				return ok && ex.Tuple == ssa.Value(hdr) && ex.Index == k
 			}
 			_ = res
-			// the test msgType == EXCEPTION
+			// the test msgType == EXCEPTION (or its negation)
 			var test *ssa.BinOp
+			isExc := true // truth value of `test` that means "type is EXCEPTION"
 			for _, b := range um.Blocks {
 				for _, in := range b.Instrs {
-					if bo, ok := in.(*ssa.BinOp); ok && bo.Op == token.EQL && isRes(bo.X, 1) {
+					if bo, ok := in.(*ssa.BinOp); ok && (bo.Op == token.EQL || bo.Op == token.NEQ) && isRes(bo.X, 1) {
 						if k, isC := constInt(bo.Y); isC && k == 3 {
 							test = bo
+							isExc = bo.Op == token.EQL
 						}
 					}
 				}
@@ -304,8 +306,8 @@ func checkC12(P *Program, r *Result, tier string) {
 				}
 			}
 			if test != nil && r.require("UnmarshalFastMsg: msg.FastRead and ex.FastRead calls", msgRead != nil && exRead != nil) {
-				r.add("EXC-BRANCH", shortName(um), "guard", "the caller's struct is decoded only when the type is not EXCEPTION", P.pos(instrPos(msgRead)), guardedBy(msgRead, test, false), "")
-				r.add("EXC-BRANCH", shortName(um), "guard", "the exception payload is decoded only when the type is EXCEPTION", P.pos(instrPos(exRead)), guardedBy(exRead, test, true), "")
+				r.add("EXC-BRANCH", shortName(um), "guard", "the caller's struct is decoded only when the type is not EXCEPTION", P.pos(instrPos(msgRead)), guardedBy(msgRead, test, !isExc), "")
+				r.add("EXC-BRANCH", shortName(um), "guard", "the exception payload is decoded only when the type is EXCEPTION", P.pos(instrPos(exRead)), guardedBy(exRead, test, isExc), "")
 				// both decode b[i:] with i = consumed header length
 				fa := newAnalysis(P).fa(um)
 				for _, c := range []*ssa.Call{msgRead, exRead} {
@@ -326,7 +328,7 @@ func checkC12(P *Program, r *Result, tier string) {
 				r.add("EXC-BRANCH", shortName(um), "fresh", "the exception is decoded into a fresh ApplicationException", P.pos(instrPos(exRead)), mk != nil, "")
 				retOK, retErrOK := false, false
 				for _, ret := range returnsOf(um) {
-					if !guardedBy(ret, test, true) {
+					if !guardedBy(ret, test, isExc) {
 						continue
 					}
 					ev := ret.Results[2]
